@@ -3,9 +3,9 @@
 // Model: a map parameter -> value initialised from the published tables (Settings::boolParam/intParam/realParam: names,
 // ranges, defaults, descriptions = what saveSettingsFile prints) plus build facts (no PaPILO).  The model predicts the
 // return value and the complete parameter state after every operation; the oracle compares ALL getters, the random seed,
-// derived state (component names/pointers, tolerances, verbosity, rational mirrors) and the stored LP after EVERY operation.
-// Every operation is first executed in a forked child ("probe"): a child killed by SIGFPE/SIGSEGV/... is a violation with
-// a call-site key and the operation is skipped in the worker, so known crashes do not kill the worker.
+// derived state (component names/pointers, tolerances, verbosity, rational mirrors) and the stored LP after EVERY
+// operation.  Every operation is first executed in a forked child ("probe"): a child killed by SIGFPE/SIGSEGV/SIGBUS/
+// SIGILL is a violation with a call-site key and the operation is skipped in the worker (known crashes do not kill it).
 #include "sx.hpp"
 #include "solvecommon.hpp"
 #include <sys/wait.h>
@@ -18,9 +18,1847 @@
 using namespace vl;
 using namespace soplex;
 
-#include "h_param_model.inc"
-#include "h_param_exec.inc"
-#include "h_param_cases.inc"
+static Cli cli;
+static bool verbose = false;
+static bool probeAll = true;
+
+static const bool HAVE_PAPILO =
+#ifdef SOPLEX_WITH_PAPILO
+   true;
+#else
+   false;
+#endif
+
+// ------------------------------------------------------------------------------------------------ published tables
+struct Tables
+{
+   int nb = 0, ni = 0, nr = 0;
+   std::vector<std::string> bn, in, rn, idesc, bdesc;
+   std::vector<char> bdef, bpap;
+   std::vector<int> ilo, ihi, idef;
+   std::vector<std::vector<int>> ienum;     // documented choices "(0 - off, 1 - auto, ...)"; empty = whole range
+   std::vector<double> rlo, rhi, rdef;
+};
+static Tables T;
+
+static std::vector<int> parseChoices(const std::string& d)
+{
+   std::vector<int> out;
+   for(size_t i = 0; i < d.size(); i++)
+   {
+      if(!(i == 0 || d[i - 1] == '(' || d[i - 1] == ' ')) continue;
+      size_t j = i;
+      if(d[j] == '+' || d[j] == '-') j++;
+      size_t ds_ = j;
+      while(j < d.size() && isdigit((unsigned char)d[j])) j++;
+      if(j == ds_) continue;
+      if(d.compare(j, 3, " - ") != 0) continue;
+      out.push_back(atoi(d.substr(i, j - i).c_str()));
+      i = j;
+   }
+   return out;
+}
+
+static void loadTables()
+{
+   T.nb = SoPlex::BOOLPARAM_COUNT;
+   T.ni = SoPlex::INTPARAM_COUNT;
+   T.nr = SoPlex::REALPARAM_COUNT;
+   auto& B = SoPlex::Settings::boolParam;
+   auto& I = SoPlex::Settings::intParam;
+   auto& R = SoPlex::Settings::realParam;
+   for(int p = 0; p < T.nb; p++)
+   {
+      T.bn.push_back(B.name[p]);
+      T.bdesc.push_back(B.description[p]);
+      T.bdef.push_back(B.defaultValue[p]);
+      T.bpap.push_back(p >= SoPlex::SIMPLIFIER_SINGLETONCOLS && p <= SoPlex::SIMPLIFIER_DOMINATEDCOLS);
+   }
+   for(int p = 0; p < T.ni; p++)
+   {
+      T.in.push_back(I.name[p]);
+      T.idesc.push_back(I.description[p]);
+      T.ilo.push_back(I.lower[p]);
+      T.ihi.push_back(I.upper[p]);
+      T.idef.push_back(I.defaultValue[p]);
+      std::vector<int> ch = parseChoices(I.description[p]);
+      if(ch.size() < 2) ch.clear();
+      T.ienum.push_back(ch);
+   }
+   for(int p = 0; p < T.nr; p++)
+   {
+      T.rn.push_back(R.name[p]);
+      T.rlo.push_back(R.lower[p]);
+      T.rhi.push_back(R.upper[p]);
+      T.rdef.push_back(R.defaultValue[p]);
+   }
+}
+
+static int findName(const std::vector<std::string>& v, const std::string& n)
+{
+   for(size_t i = 0; i < v.size(); i++) if(v[i] == n) return (int)i;
+   return -1;
+}
+
+// a small hard-coded table of well-known documented defaults / ranges (catches a mutated table)
+static void checkTablesAgainstDocs()
+{
+   Sink& S = sink();
+   if(T.nb != 26 || T.ni != 28 || T.nr != 27)
+      S.viol("C15:table:counts:-:mutated", "expected 26 bool, 28 int, 27 real parameters, found " + std::to_string(T.nb) + "/" + std::to_string(T.ni) + "/" + std::to_string(T.nr));
+   struct BD { const char* n; bool d; };
+   static const BD bd[] = {{"lifting", false}, {"eqtrans", false}, {"ratfac", true}, {"ratrec", true}, {"powerscaling", true}, {"persistentscaling", true},
+      {"ensureray", false}, {"fullperturbation", false}, {"rowboundflips", false}, {"iterative_refinement", true}, {"precision_boosting", true},
+      {"simplifier_enable_dualfix", true}, {"forcebasic", false}
+   };
+   for(auto& e : bd)
+   {
+      int p = findName(T.bn, e.n);
+      if(p < 0) S.viol(std::string("C15:table:") + e.n + ":-:missing", "documented bool parameter missing from the table");
+      else if((bool)T.bdef[p] != e.d) S.viol(std::string("C15:table:") + e.n + ":-:default-mutated", "documented default differs from the table default");
+   }
+   struct ID { const char* n; int lo, hi, d; };
+   static const ID id[] = {{"objsense", -1, 1, 1}, {"representation", 0, 2, 0}, {"algorithm", 0, 1, 1}, {"factor_update_type", 0, 1, 1},
+      {"factor_update_max", 0, INT_MAX, 0}, {"iterlimit", -1, INT_MAX, -1}, {"reflimit", -1, INT_MAX, -1}, {"displayfreq", 1, INT_MAX, 200},
+      {"verbosity", 0, 5, 3}, {"simplifier", 0, 3, 3}, {"scaler", 0, 6, 2}, {"starter", 0, 3, 0}, {"pricer", 0, 5, 0}, {"ratiotester", 0, 3, 3},
+      {"syncmode", 0, 2, 0}, {"readmode", 0, 1, 0}, {"solvemode", 0, 2, 1}, {"checkmode", 0, 2, 1}, {"timer", 0, 2, 1}, {"hyperpricing", 0, 2, 1},
+      {"solution_polishing", 0, 2, 0}, {"printbasismetric", -1, 3, -1}, {"leastsq_maxrounds", 0, INT_MAX, 50}, {"multiprecision_limit", 50, INT_MAX, 300}
+   };
+   for(auto& e : id)
+   {
+      int p = findName(T.in, e.n);
+      if(p < 0) S.viol(std::string("C15:table:") + e.n + ":-:missing", "documented int parameter missing from the table");
+      else
+      {
+         if(T.idef[p] != e.d) S.viol(std::string("C15:table:") + e.n + ":-:default-mutated", "documented default " + std::to_string(e.d) + ", table " + std::to_string(T.idef[p]));
+         if(T.ilo[p] != e.lo || T.ihi[p] != e.hi) S.viol(std::string("C15:table:") + e.n + ":-:range-mutated", "documented range differs from the table range");
+      }
+   }
+   struct RD { const char* n; double lo, hi, d; };
+   static const RD rd[] = {{"feastol", 0, 1, 1e-6}, {"opttol", 0, 1, 1e-6}, {"epsilon_zero", 0, 1, 1e-16}, {"epsilon_factorization", 0, 1, 1e-20},
+      {"epsilon_update", 0, 1, 1e-16}, {"epsilon_pivot", 0, 1, 1e-10}, {"infty", 1e10, 1e100, 1e100}, {"timelimit", 0, 1e100, 1e100},
+      {"objlimit_lower", -1e100, 1e100, -1e100}, {"objlimit_upper", -1e100, 1e100, 1e100}, {"fpfeastol", 0, 1, 1e-9}, {"fpopttol", 0, 1, 1e-9},
+      {"maxscaleincr", 1, 1e100, 1e25}, {"sparsity_threshold", 0, 1, 0.6}, {"representation_switch", 0, 1e100, 1.2}, {"obj_offset", -1e100, 1e100, 0},
+      {"min_markowitz", 0.0001, 0.9999, 0.01}, {"refac_basis_nnz", 1, 100, 10}, {"refac_update_fill", 1, 100, 5}, {"refac_mem_factor", 1, 10, 1.5},
+      {"leastsq_acrcy", 1, 1e100, 1000}, {"minred", 0, 1, 1e-4}, {"simplifier_modifyrowfac", 0, 1, 1.0}
+   };
+   for(auto& e : rd)
+   {
+      int p = findName(T.rn, e.n);
+      if(p < 0) S.viol(std::string("C15:table:") + e.n + ":-:missing", "documented real parameter missing from the table");
+      else
+      {
+         if(T.rdef[p] != e.d) S.viol(std::string("C15:table:") + e.n + ":-:default-mutated", "documented default " + ds(e.d) + ", table " + ds(T.rdef[p]));
+         if(T.rlo[p] != e.lo || T.rhi[p] != e.hi) S.viol(std::string("C15:table:") + e.n + ":-:range-mutated", "documented range differs from the table range");
+      }
+   }
+   // objsense documents exactly the choices -1 and +1 (0 lies in the range but is not a choice)
+   int os = findName(T.in, "objsense");
+   if(os >= 0 && !(T.ienum[os].size() == 2)) S.viol("C15:table:objsense:-:choices", "objsense description no longer documents exactly two choices");
+   std::set<std::string> names(T.bn.begin(), T.bn.end());
+   names.insert(T.in.begin(), T.in.end());
+   names.insert(T.rn.begin(), T.rn.end());
+   if((int)names.size() != T.nb + T.ni + T.nr) S.viol("C15:table:names:-:duplicate", "parameter names are not unique");
+}
+
+// ------------------------------------------------------------------------------------------------ model
+struct Model
+{
+   std::vector<char> b;
+   std::vector<int> i;
+   std::vector<double> r;
+   unsigned seed = 0;
+   int rat = 0;       // rational LP: 0 absent, 1 exact copy of the real LP, 2 present with unspecified content
+   Model()
+   {
+      b = T.bdef;
+      i = T.idef;
+      r = T.rdef;
+   }
+};
+
+static bool validInt(int p, int v)
+{
+   if(v < T.ilo[p] || v > T.ihi[p]) return false;
+   if(!T.ienum[p].empty() && std::find(T.ienum[p].begin(), T.ienum[p].end(), v) == T.ienum[p].end()) return false;
+   if(p == SoPlex::SIMPLIFIER && v == SoPlex::SIMPLIFIER_PAPILO && !HAVE_PAPILO) return false;   // documented: not available in this build
+   return true;
+}
+static bool validReal(int p, double v)
+{
+   if(std::isnan(v)) return false;
+   return v >= T.rlo[p] && v <= T.rhi[p];
+}
+// predicted effect of the typed setters: return value; the model is updated on success
+static bool predBool(Model& m, int p, bool v)
+{
+   if(T.bpap[p] && !HAVE_PAPILO) return (bool)m.b[p] == v;     // changing is rejected with a message, same value is fine
+   m.b[p] = v;
+   return true;
+}
+static bool predInt(Model& m, int p, int v)
+{
+   if(!validInt(p, v)) return false;
+   if(p == SoPlex::SYNCMODE)
+   {
+      int old = m.i[p];
+      if(v == SoPlex::SYNCMODE_ONLYREAL) m.rat = 0;
+      else if(old == SoPlex::SYNCMODE_ONLYREAL) m.rat = v == SoPlex::SYNCMODE_AUTO ? 1 : 2;
+   }
+   m.i[p] = v;
+   return true;
+}
+static bool predReal(Model& m, int p, double v)
+{
+   if(!validReal(p, v)) return false;
+   if(p == SoPlex::SIMPLIFIER_MODIFYROWFAC && !HAVE_PAPILO && !(m.r[p] == v)) return false;
+   m.r[p] = v;
+   return true;
+}
+
+// ------------------------------------------------------------------------------------------------ value classes
+struct IV
+{
+   std::string cls;
+   int v;
+};
+struct RV
+{
+   std::string cls;
+   double v;
+};
+static int randomValidInt(Rng& g, int p, int avoid)
+{
+   std::vector<int> c;
+   if(!T.ienum[p].empty())
+   {
+      for(int v : T.ienum[p]) if(validInt(p, v)) c.push_back(v);
+   }
+   else if((long long)T.ihi[p] - T.ilo[p] <= 64)
+   {
+      for(int v = T.ilo[p]; v <= T.ihi[p]; v++) if(validInt(p, v)) c.push_back(v);
+   }
+   else
+   {
+      static const int cand[] = {-1, 0, 1, 2, 3, 7, 10, 50, 51, 64, 100, 200, 1000, 10000, 65536, 1 << 20, 1 << 30, INT_MAX - 1, INT_MAX};
+      for(int v : cand) if(validInt(p, v)) c.push_back(v);
+      int v = T.ilo[p] + g.range(0, 5000);
+      if(validInt(p, v)) c.push_back(v);
+   }
+   if(c.empty()) return T.idef[p];
+   for(int t = 0; t < 6; t++)
+   {
+      int v = g.pick(c);
+      if(v != avoid) return v;
+   }
+   return g.pick(c);
+}
+static double randomValidReal(Rng& g, int p, double avoid)
+{
+   double lo = T.rlo[p], hi = T.rhi[p];
+   for(int t = 0; t < 8; t++)
+   {
+      double v;
+      int how = g.range(0, 3);
+      if(lo >= 0 && hi <= 1.0 + 1e-12 && lo <= 1e-3)
+      {
+         if(how == 0) v = lo + g.unit() * (hi - lo);
+         else v = std::pow(10.0, -g.unit() * 15.0) * hi;
+      }
+      else if(lo > 0 && hi / lo > 1e6) v = lo * std::pow(hi / lo, g.unit());
+      else if(lo < -1e50) v = how == 0 ? (g.unit() - 0.5) * 2e6 : how == 1 ? (double)g.range(-1000, 1000) : how == 2 ? (g.unit() - 0.5) * 1e40 : (g.unit() - 0.5) * 20.0;
+      else if(hi > 1e50) v = how <= 1 ? lo + g.unit() * 100.0 : lo + std::pow(10.0, g.unit() * 60.0);
+      else v = lo + g.unit() * (hi - lo);
+      if(g.chance(0.3))
+      {
+         char b[40];      // short decimal literals as well
+         snprintf(b, sizeof b, "%.3g", v);
+         v = strtod(b, nullptr);
+      }
+      if(validReal(p, v) && !(v == avoid)) return v;
+   }
+   return T.rdef[p];
+}
+static std::vector<IV> intClasses(Rng& g, int p, int cur)
+{
+   std::vector<IV> c;
+   int lo = T.ilo[p], hi = T.ihi[p];
+   c.push_back({"valid", randomValidInt(g, p, cur)});
+   c.push_back({"min", lo});
+   c.push_back({"max", hi});
+   if(lo > INT_MIN) c.push_back({"below-min", lo - 1});
+   if(hi < INT_MAX) c.push_back({"above-max", hi + 1});
+   if(lo > INT_MIN + 1) c.push_back({"int-min", INT_MIN});
+   if(hi < INT_MAX - 1) c.push_back({"int-max", INT_MAX});
+   for(int v = lo; v <= hi && (long long)hi - lo <= 64; v++)
+   {
+      if(p == SoPlex::SIMPLIFIER && v == SoPlex::SIMPLIFIER_PAPILO && !HAVE_PAPILO) c.push_back({"2", v});
+      else if(!validInt(p, v)) c.push_back({"non-enum", v});
+   }
+   c.push_back({"same", cur});
+   return c;
+}
+static const double DENORM = 4.9406564584124654e-324;
+static std::vector<RV> realClasses(Rng& g, int p, double cur)
+{
+   std::vector<RV> c;
+   double lo = T.rlo[p], hi = T.rhi[p];
+   c.push_back({"valid", randomValidReal(g, p, cur)});
+   c.push_back({"min", lo});
+   c.push_back({"max", hi});
+   c.push_back({"below-min", std::nextafter(lo, -INFINITY)});
+   c.push_back({"above-max", std::nextafter(hi, INFINITY)});
+   c.push_back({"+inf", INFINITY});
+   c.push_back({"-inf", -INFINITY});
+   c.push_back({"nan", NAN});
+   if(lo <= DENORM && DENORM <= hi) c.push_back({"denormal", DENORM});
+   if(lo <= 0 && 0 <= hi) c.push_back({"neg-zero", -0.0});
+   c.push_back({"same", cur});
+   return c;
+}
+
+// ------------------------------------------------------------------------------------------------ text lines
+struct Line
+{
+   int kind = 0;          // 0 parameter line, 1 comment/blank (no effect, success), 2 malformed structure (failure), 3 overlong (file only)
+   char ptype = 'i';      // 'b','i','r','u'
+   int p = -1;
+   std::string pname = "-", cls = "-";
+   bool bv = false;
+   int iv = 0;
+   double rv = 0;
+   unsigned long long uv = 0;
+   bool parsable = true;  // the value text denotes a value of the parameter's type (else: documented failure, no effect)
+   std::string vtext, text;
+};
+static const char* BOOL_TRUE[] = {"true", "TRUE", "True", "t", "T", "1"};
+static const char* BOOL_FALSE[] = {"false", "FALSE", "False", "f", "F", "0"};
+static const int NLAYOUT = 8;
+static std::string layout(int L, const std::string& t, const std::string& n, const std::string& v, bool forFile)
+{
+   switch(L % NLAYOUT)
+   {
+   case 0: return t + ":" + n + "=" + v;
+   case 1: return t + ":" + n + " = " + v;
+   case 2: return " " + t + " : " + n + " = " + v + " ";
+   case 3: return "\t" + t + ":" + n + "\t=\t" + v;
+   case 4: return t + ":" + n + " = " + v + " # a comment = : here";
+   case 5: return t + ":" + n + " = " + v + "\r";
+   case 6: return forFile ? t + ":" + n + " =" + v + "  \t" : t + ":" + n + " = " + v + "\n";
+   default: return t + " :" + n + "= " + v;
+   }
+}
+static const char* typeWord(char pt)
+{
+   return pt == 'b' ? "bool" : pt == 'i' ? "int" : pt == 'r' ? "real" : "uint";
+}
+static std::string realText(double v, int style)
+{
+   if(std::isnan(v)) return style % 3 == 0 ? "nan" : style % 3 == 1 ? "NaN" : "-nan";
+   if(std::isinf(v)) return v > 0 ? (style % 3 == 0 ? "inf" : style % 3 == 1 ? "+inf" : "infinity") : (style % 2 ? "-inf" : "-infinity");
+   char b[64];
+   if(style % 3 == 1) snprintf(b, sizeof b, "%.16e", v);
+   else if(style % 3 == 2)
+   {
+      snprintf(b, sizeof b, "%.17G", v);
+   }
+   else snprintf(b, sizeof b, "%.17g", v);
+   return b;
+}
+static Line boolLine(int p, bool v, int spelling, int L, bool forFile)
+{
+   Line l;
+   l.ptype = 'b';
+   l.p = p;
+   l.pname = T.bn[p];
+   l.bv = v;
+   l.cls = v ? "true" : "false";
+   l.vtext = v ? BOOL_TRUE[spelling % 6] : BOOL_FALSE[spelling % 6];
+   l.text = layout(L, "bool", l.pname, l.vtext, forFile);
+   return l;
+}
+static Line intLine(int p, const std::string& cls, int v, int L, bool forFile, bool plus = false)
+{
+   Line l;
+   l.ptype = 'i';
+   l.p = p;
+   l.pname = T.in[p];
+   l.iv = v;
+   l.cls = cls;
+   l.vtext = (plus && v > 0 ? "+" : "") + std::to_string(v);
+   l.text = layout(L, "int", l.pname, l.vtext, forFile);
+   return l;
+}
+static Line realLine(int p, const std::string& cls, double v, int L, bool forFile, int style = 0)
+{
+   Line l;
+   l.ptype = 'r';
+   l.p = p;
+   l.pname = T.rn[p];
+   l.rv = v;
+   l.cls = cls;
+   l.vtext = realText(v, style);
+   l.text = layout(L, "real", l.pname, l.vtext, forFile);
+   return l;
+}
+static Line seedLine(const std::string& cls, unsigned long long v, int L, bool forFile)
+{
+   Line l;
+   l.ptype = 'u';
+   l.pname = "random_seed";
+   l.uv = v;
+   l.cls = cls;
+   l.vtext = std::to_string(v);
+   l.text = layout(L, "uint", l.pname, l.vtext, forFile);
+   return l;
+}
+// value text that is not a value of the type: documented failure (no exception, no effect)
+static Line badValueLine(char pt, int p, const std::string& cls, const std::string& vtext, int L, bool forFile)
+{
+   Line l;
+   l.ptype = pt;
+   l.p = p;
+   l.pname = pt == 'b' ? T.bn[p] : pt == 'i' ? T.in[p] : pt == 'r' ? T.rn[p] : "random_seed";
+   l.cls = cls;
+   l.parsable = false;
+   l.vtext = vtext;
+   l.text = layout(L, typeWord(pt), l.pname, vtext, forFile);
+   return l;
+}
+static const char* MALFORMED[] = {"no-colon", "no-equals", "no-value", "extra-token", "unknown-name", "wrong-type", "unknown-type", "bare-type", "empty-name", "name-only"};
+static const int NMALFORMED = 10;
+static Line malformedLine(int which, char pt, const std::string& name, const std::string& vtext)
+{
+   Line l;
+   l.kind = 2;
+   l.ptype = pt;
+   l.cls = MALFORMED[which % NMALFORMED];
+   std::string t = typeWord(pt);
+   switch(which % NMALFORMED)
+   {
+   case 0: l.text = t + " " + name + " = " + vtext; break;
+   case 1: l.text = t + ":" + name + " " + vtext; break;
+   case 2: l.text = t + ":" + name + " = "; break;
+   case 3: l.text = t + ":" + name + " = " + vtext + " " + vtext; break;
+   case 4: l.text = t + ":" + name + "_nosuch = " + vtext; break;
+   case 5: l.text = std::string(pt == 'b' ? "int" : "bool") + ":" + name + " = " + vtext; break;
+   case 6: l.text = "float:" + name + " = " + vtext; break;
+   case 7: l.text = t; break;
+   case 8: l.text = t + ": = " + vtext; break;
+   default: l.text = t + ":" + name; break;
+   }
+   return l;
+}
+static Line commentLine(Rng& g)
+{
+   Line l;
+   l.kind = 1;
+   static const char* c[] = {"", "   ", "# comment", "\t# int:iterlimit = 5", "#", " \t ", "# real:feastol = nan", "\r"};
+   l.text = c[g.range(0, 7)];
+   l.cls = "comment";
+   return l;
+}
+// predicted effect of one line (the same for parseSettingsString and for a line of a settings file)
+static bool predLine(Model& m, const Line& l)
+{
+   if(l.kind == 1) return true;
+   if(l.kind != 0 || !l.parsable) return false;
+   if(l.ptype == 'b') return predBool(m, l.p, l.bv);
+   if(l.ptype == 'i') return predInt(m, l.p, l.iv);
+   if(l.ptype == 'r') return predReal(m, l.p, l.rv);
+   m.seed = l.uv > UINT_MAX ? UINT_MAX : (unsigned)l.uv;      // documented: converted with a warning
+   return true;
+}
+
+// independent reader of a saved settings file
+struct SavedEntry
+{
+   std::string type, name, value, rangeLine;
+};
+static bool readSaved(const std::string& path, std::vector<SavedEntry>& out, std::string& err)
+{
+   std::ifstream f(path);
+   if(!f)
+   {
+      err = "cannot open";
+      return false;
+   }
+   std::string line, lastRange;
+   while(std::getline(f, line))
+   {
+      if(line.empty()) continue;
+      if(line[0] == '#')
+      {
+         if(line.compare(0, 8, "# range ") == 0) lastRange = line.substr(8);
+         continue;
+      }
+      size_t c = line.find(':'), e = line.find(" = ");
+      if(c == std::string::npos || e == std::string::npos || e < c)
+      {
+         err = "unparsable line <" + line + ">";
+         return false;
+      }
+      SavedEntry s;
+      s.type = line.substr(0, c);
+      s.name = line.substr(c + 1, e - c - 1);
+      s.value = line.substr(e + 3);
+      s.rangeLine = lastRange;
+      lastRange.clear();
+      out.push_back(s);
+   }
+   return true;
+}
+static std::string sci8(double v)
+{
+   char b[64];
+   snprintf(b, sizeof b, "%.8e", v);
+   return b;
+}
+
+// ------------------------------------------------------------------------------------------------ execution with probe
+struct Exec
+{
+   bool ret = false, threw = false, crashed = false;
+   int sig = 0;
+   std::string extype;
+};
+static const char* sigName(int s)
+{
+   return s == SIGFPE ? "SIGFPE" : s == SIGSEGV ? "SIGSEGV" : s == SIGBUS ? "SIGBUS" : s == SIGILL ? "SIGILL" : s == SIGABRT ? "SIGABRT" : "SIG?";
+}
+static std::string excName(const std::exception& e)
+{
+   int st = 0;
+   char* d = abi::__cxa_demangle(typeid(e).name(), nullptr, nullptr, &st);
+   std::string n = (st == 0 && d) ? d : typeid(e).name();
+   free(d);
+   return n;
+}
+// runs f (returning bool) first in a forked child; plain fatal signals there => crashed (f is NOT run in this process)
+static Exec runProbed(const std::function<bool()>& f, bool risky)
+{
+   Exec e;
+   Sink& S = sink();
+   if(probeAll || risky)
+   {
+      fflush(stdout);
+      fflush(stderr);
+      pid_t pid = fork();
+      if(pid == 0)
+      {
+         signal(SIGFPE, SIG_DFL);
+         signal(SIGSEGV, SIG_DFL);
+         signal(SIGBUS, SIG_DFL);
+         signal(SIGILL, SIG_DFL);
+         int rc = 12;
+         try
+         {
+            rc = f() ? 10 : 11;
+         }
+         catch(...)
+         {
+            rc = 12;
+         }
+         _exit(rc);
+      }
+      else if(pid > 0)
+      {
+         int st = 0;
+         while(waitpid(pid, &st, 0) < 0 && errno == EINTR) {}
+         S.count("probe.forks");
+         if(WIFSIGNALED(st))
+         {
+            int sg = WTERMSIG(st);
+            if(sg == SIGFPE || sg == SIGSEGV || sg == SIGBUS || sg == SIGILL)
+            {
+               e.crashed = true;
+               e.sig = sg;
+               S.count("probe.crashes");
+               return e;
+            }
+            // SIGABRT etc.: a sanitizer report or std::terminate -> run in process so that the driver keys the report
+         }
+      }
+      else S.count("probe.fork_failed");
+   }
+   try
+   {
+      e.ret = f();
+   }
+   catch(const std::exception& x)
+   {
+      e.threw = true;
+      e.extype = excName(x);
+   }
+   catch(...)
+   {
+      e.threw = true;
+      e.extype = "unknown";
+   }
+   return e;
+}
+
+// ------------------------------------------------------------------------------------------------ oracle
+struct Mis
+{
+   std::string param, kind, detail;     // kind: "value" | "seed" | "derived:<label>" | "lp"
+};
+static const char* PRICER_NAMES[] = {"Auto", "Dantzig", "ParMult", "Devex", "Steep", "SteepEx"};
+static const char* RT_NAMES[] = {"Default", "Harris", "Fast", "Bound Flipping"};
+static const char* SCALER_NAMES[] = {"none", "uni-Equilibrium", "bi-Equilibrium", "Geometric", "Geometric", "Least squares", "Geometric"};
+static const char* STARTER_NAMES[] = {"none", "Weight", "Sum", "vector"};
+static const char* SIMPLIFIER_NAMES[] = {"none", "MainSM", "PaPILO", "MainSM"};
+
+static bool sameD(double a, double b)
+{
+   return a == b || (std::isnan(a) && std::isnan(b));
+}
+static Q ratOfDouble(double d)
+{
+   return qd(d);
+}
+static void checkParams(SoPlex& s, const Model& m, std::vector<Mis>& out)
+{
+   Sink& S = sink();
+   S.count("oracle.evaluations");
+   for(int p = 0; p < T.nb; p++)
+      if(s.boolParam((SoPlex::BoolParam)p) != (bool)m.b[p])
+         out.push_back({T.bn[p], "value", "boolParam(" + T.bn[p] + ") = " + (m.b[p] ? "false" : "true") + ", model " + (m.b[p] ? "true" : "false")});
+   for(int p = 0; p < T.ni; p++)
+      if(s.intParam((SoPlex::IntParam)p) != m.i[p])
+         out.push_back({T.in[p], "value", "intParam(" + T.in[p] + ") = " + std::to_string(s.intParam((SoPlex::IntParam)p)) + ", model " + std::to_string(m.i[p])});
+   for(int p = 0; p < T.nr; p++)
+      if(!sameD(s.realParam((SoPlex::RealParam)p), m.r[p]))
+         out.push_back({T.rn[p], "value", "realParam(" + T.rn[p] + ") = " + ds(s.realParam((SoPlex::RealParam)p)) + ", model " + ds(m.r[p])});
+   if(s.randomSeed() != m.seed) out.push_back({"random_seed", "seed", "randomSeed() = " + std::to_string(s.randomSeed()) + ", model " + std::to_string(m.seed)});
+   // ---- derived state
+   auto der = [&](const char* param, const char* label, bool ok, const std::string & d)
+   {
+      if(!ok) out.push_back({param, std::string("derived:") + label, d});
+   };
+   auto nameIs = [](const char* a, const char* b)
+   {
+      return a && b && strcmp(a, b) == 0;
+   };
+   int v;
+   v = m.i[SoPlex::PRICER];
+   der("pricer", "pricer-name", v >= 0 && v <= 5 && nameIs(s.getPricerName(), PRICER_NAMES[v]), std::string("getPricerName() = ") + s.getPricerName() + " with pricer = " + std::to_string(v));
+   {
+      const void* pp[] = {&s._pricerAuto, &s._pricerDantzig, &s._pricerParMult, &s._pricerDevex, &s._pricerQuickSteep, &s._pricerSteep};
+      der("pricer", "pricer-object", (const void*)s._solver.pricer() == pp[v], "solver's pricer object is not the one selected by pricer = " + std::to_string(v));
+   }
+   v = m.i[SoPlex::RATIOTESTER];
+   der("ratiotester", "ratiotester-name", nameIs(s.getRatiotesterName(), RT_NAMES[v]), std::string("getRatiotesterName() = ") + s.getRatiotesterName() + " with ratiotester = " + std::to_string(v));
+   v = m.i[SoPlex::SCALER];
+   der("scaler", "scaler-name", nameIs(s.getScalerName(), SCALER_NAMES[v]), std::string("getScalerName() = ") + s.getScalerName() + " with scaler = " + std::to_string(v));
+   {
+      const void* pp[] = {nullptr, &s._scalerUniequi, &s._scalerBiequi, &s._scalerGeo1, &s._scalerGeo8, &s._scalerLeastsq, &s._scalerGeoequi};
+      der("scaler", "scaler-object", (const void*)s._scaler == pp[v], "scaler object is not the one selected by scaler = " + std::to_string(v));
+   }
+   if(v == SoPlex::SCALER_LEASTSQ)
+   {
+      der("scaler", "leastsq_maxrounds", s._scalerLeastsq.maxrounds == m.i[SoPlex::LEASTSQ_MAXROUNDS],
+          "least-squares scaler is selected and would use maxrounds = " + std::to_string(s._scalerLeastsq.maxrounds) + " but leastsq_maxrounds = " + std::to_string(m.i[SoPlex::LEASTSQ_MAXROUNDS]));
+      der("scaler", "leastsq_acrcy", (double)s._scalerLeastsq.acrcydivisor == m.r[SoPlex::LEASTSQ_ACRCY],
+          "least-squares scaler is selected and would use accuracy = " + ds((double)s._scalerLeastsq.acrcydivisor) + " but leastsq_acrcy = " + ds(m.r[SoPlex::LEASTSQ_ACRCY]));
+   }
+   v = m.i[SoPlex::STARTER];
+   der("starter", "starter-name", nameIs(s.getStarterName(), STARTER_NAMES[v]), std::string("getStarterName() = ") + s.getStarterName() + " with starter = " + std::to_string(v));
+   v = m.i[SoPlex::SIMPLIFIER];
+   der("simplifier", "simplifier-name", nameIs(s.getSimplifierName(), SIMPLIFIER_NAMES[v]), std::string("getSimplifierName() = ") + s.getSimplifierName() + " with simplifier = " + std::to_string(v));
+   der("verbosity", "spxout-verbosity", (int)s.spxout.getVerbosity() == m.i[SoPlex::VERBOSITY], "spxout verbosity " + std::to_string((int)s.spxout.getVerbosity()) + " with verbosity = " + std::to_string(m.i[SoPlex::VERBOSITY]));
+   auto tol = s.tolerances();
+   der("feastol", "tolerances-feastol", sameD(tol->feastol(), m.r[SoPlex::FEASTOL]), "tolerances()->feastol() = " + ds(tol->feastol()) + ", feastol = " + ds(m.r[SoPlex::FEASTOL]));
+   der("opttol", "tolerances-opttol", sameD(tol->opttol(), m.r[SoPlex::OPTTOL]), "tolerances()->opttol() = " + ds(tol->opttol()) + ", opttol = " + ds(m.r[SoPlex::OPTTOL]));
+   der("epsilon_zero", "tolerances-epsilon", sameD(tol->epsilon(), m.r[SoPlex::EPSILON_ZERO]), "tolerances()->epsilon() = " + ds(tol->epsilon()) + ", epsilon_zero = " + ds(m.r[SoPlex::EPSILON_ZERO]));
+   der("epsilon_factorization", "tolerances-epsfactor", sameD(tol->epsilonFactorization(), m.r[SoPlex::EPSILON_FACTORIZATION]), "tolerances()->epsilonFactorization() = " + ds(tol->epsilonFactorization()));
+   der("epsilon_update", "tolerances-epsupdate", sameD(tol->epsilonUpdate(), m.r[SoPlex::EPSILON_UPDATE]), "tolerances()->epsilonUpdate() = " + ds(tol->epsilonUpdate()));
+   der("epsilon_pivot", "tolerances-epspivot", sameD(tol->epsilonPivot(), m.r[SoPlex::EPSILON_PIVOT]), "tolerances()->epsilonPivot() = " + ds(tol->epsilonPivot()));
+   der("fpfeastol", "tolerances-fpfeastol", sameD(tol->floatingPointFeastol(), m.r[SoPlex::FPFEASTOL]), "tolerances()->floatingPointFeastol() = " + ds(tol->floatingPointFeastol()));
+   der("fpopttol", "tolerances-fpopttol", sameD(tol->floatingPointOpttol(), m.r[SoPlex::FPOPTTOL]), "tolerances()->floatingPointOpttol() = " + ds(tol->floatingPointOpttol()));
+   der("feastol", "rational-feastol", Q(s._rationalFeastol) == ratOfDouble(m.r[SoPlex::FEASTOL]), "rational feasibility tolerance differs from feastol");
+   der("opttol", "rational-opttol", Q(s._rationalOpttol) == ratOfDouble(m.r[SoPlex::OPTTOL]), "rational optimality tolerance differs from opttol");
+   der("infty", "rational-infty", Q(s._rationalPosInfty) == ratOfDouble(m.r[SoPlex::INFTY]) && Q(s._rationalNegInfty) == Q(-ratOfDouble(m.r[SoPlex::INFTY])), "rational infinity differs from infty");
+   der("maxscaleincr", "rational-maxscaleincr", Q(s._rationalMaxscaleincr) == ratOfDouble(m.r[SoPlex::MAXSCALEINCR]), "rational maxscaleincr differs from the parameter");
+   der("syncmode", "rational-lp-presence", (s._rationalLP != nullptr) == (m.i[SoPlex::SYNCMODE] != SoPlex::SYNCMODE_ONLYREAL),
+       std::string("rational LP is ") + (s._rationalLP ? "present" : "absent") + " with syncmode = " + std::to_string(m.i[SoPlex::SYNCMODE]));
+   der("displayfreq", "solver-displayfreq", s._solver.getDisplayFreq() == m.i[SoPlex::DISPLAYFREQ], "solver display frequency " + std::to_string(s._solver.getDisplayFreq()));
+   der("factor_update_type", "slufactor-utype", (int)s._slufactor.utype() == (m.i[SoPlex::FACTOR_UPDATE_TYPE] == SoPlex::FACTOR_UPDATE_TYPE_ETA ? (int)SLUFactor<double>::ETA : (int)SLUFactor<double>::FOREST_TOMLIN), "LU update type differs");
+   der("factor_update_max", "basis-maxupdates", s._solver.basis().getMaxUpdates() == (m.i[SoPlex::FACTOR_UPDATE_MAX] == 0 ? 200 : m.i[SoPlex::FACTOR_UPDATE_MAX]), "basis max updates " + std::to_string(s._solver.basis().getMaxUpdates()));
+   der("min_markowitz", "slufactor-markowitz", (double)s._slufactor.minThreshold == m.r[SoPlex::MIN_MARKOWITZ], "LU Markowitz threshold " + ds((double)s._slufactor.minThreshold));
+   der("fullperturbation", "solver-fullperturbation", s._solver.fullPerturbation == (bool)m.b[SoPlex::FULLPERTURBATION], "solver full perturbation flag differs");
+   der("rowboundflips", "boundflipping-rowflips", s._ratiotesterBoundFlipping.enableRowBoundFlips == (bool)m.b[SoPlex::ROWBOUNDFLIPS], "bound flipping ratio tester row flag differs");
+   der("solution_polishing", "solver-polishing", (int)s._solver.polishObj == m.i[SoPlex::SOLUTION_POLISHING], "solver polishing objective " + std::to_string((int)s._solver.polishObj));
+   der("printbasismetric", "solver-basismetric", s._solver.printBasisMetric == m.i[SoPlex::PRINTBASISMETRIC], "solver basis metric " + std::to_string(s._solver.printBasisMetric));
+   der("storeBasisSimplexFreq", "solver-storebasisfreq", s._solver.storeBasisSimplexFreq == m.i[SoPlex::STORE_BASIS_SIMPLEX_FREQ], "solver store-basis frequency " + std::to_string(s._solver.storeBasisSimplexFreq));
+   der("timer", "solver-timer", (int)s._solver.timerType == m.i[SoPlex::TIMER], "solver timer type " + std::to_string((int)s._solver.timerType));
+}
+
+// the stored LP must be the loaded LP with sense / offset given by the parameters
+static bool infD(double d)
+{
+   return d >= 1e100 || d <= -1e100;
+}
+static std::string lpDiff(SoPlex& s, const Model& m, const LPModel* M)
+{
+   int em = M ? M->m : 0, en = M ? M->n : 0;
+   if(s.numRows() != em || s.numCols() != en) return "dimensions " + std::to_string(s.numRows()) + "x" + std::to_string(s.numCols()) + ", loaded " + std::to_string(em) + "x" + std::to_string(en);
+   int sense = s._realLP->spxSense() == SPxLPBase<double>::MAXIMIZE ? 1 : -1;
+   if(sense != m.i[SoPlex::OBJSENSE]) return "stored sense " + std::to_string(sense) + ", objsense " + std::to_string(m.i[SoPlex::OBJSENSE]);
+   if(!sameD((double)s._realLP->objOffset(), m.r[SoPlex::OBJ_OFFSET])) return "stored offset " + ds((double)s._realLP->objOffset()) + ", obj_offset " + ds(m.r[SoPlex::OBJ_OFFSET]);
+   auto eqB = [](double d, const Q & q)
+   {
+      if(isPInf(q)) return d >= 1e100;
+      if(isNInf(q)) return d <= -1e100;
+      return !infD(d) && qd(d) == q;
+   };
+   for(int j = 0; j < en; j++)
+   {
+      if(!eqB(s.objReal(j), M->obj[j])) return "objReal(" + std::to_string(j) + ") = " + ds(s.objReal(j)) + ", loaded " + ds(dq(M->obj[j]));
+      if(!eqB(s.lowerReal(j), M->lo[j])) return "lowerReal(" + std::to_string(j) + ") changed";
+      if(!eqB(s.upperReal(j), M->up[j])) return "upperReal(" + std::to_string(j) + ") changed";
+   }
+   for(int i = 0; i < em; i++)
+   {
+      if(!eqB(s.lhsReal(i), M->lhs[i])) return "lhsReal(" + std::to_string(i) + ") changed";
+      if(!eqB(s.rhsReal(i), M->rhs[i])) return "rhsReal(" + std::to_string(i) + ") changed";
+      DSVectorReal r;
+      s.getRowVectorReal(i, r);
+      std::vector<Q> row(en, Q(0));
+      for(int k = 0; k < r.size(); k++) if(r.index(k) >= 0 && r.index(k) < en) row[r.index(k)] = qd(r.value(k));
+      for(int j = 0; j < en; j++) if(row[j] != M->A[i][j]) return "matrix entry (" + std::to_string(i) + "," + std::to_string(j) + ") changed";
+   }
+   if(m.rat == 1 && s._rationalLP != nullptr)
+   {
+      sink().count("oracle.rational_lp_checked");
+      if(s.numRowsRational() != em || s.numColsRational() != en) return "rational LP dimensions differ from the real LP";
+      int rs = s._rationalLP->spxSense() == SPxLPRational::MAXIMIZE ? 1 : -1;
+      if(rs != m.i[SoPlex::OBJSENSE]) return "rational LP sense differs from objsense";
+      if(Q(s._rationalLP->objOffset()) != qd(m.r[SoPlex::OBJ_OFFSET])) return "rational LP offset differs from obj_offset";
+      auto eqR = [](const Rational & r, const Q & q)
+      {
+         if(isPInf(q)) return r >= Rational(1e100);
+         if(isNInf(q)) return r <= Rational(-1e100);
+         return Q(r) == q;
+      };
+      for(int j = 0; j < en; j++)
+      {
+         if(!eqR(s.objRational(j), M->obj[j])) return "objRational(" + std::to_string(j) + ") differs";
+         if(!eqR(s.lowerRational(j), M->lo[j]) || !eqR(s.upperRational(j), M->up[j])) return "rational bound of column " + std::to_string(j) + " differs";
+      }
+      for(int i = 0; i < em; i++)
+      {
+         if(!eqR(s.lhsRational(i), M->lhs[i]) || !eqR(s.rhsRational(i), M->rhs[i])) return "rational side of row " + std::to_string(i) + " differs";
+         const SVectorRational& r = s.rowVectorRational(i);
+         std::vector<Q> row(en, Q(0));
+         for(int k = 0; k < r.size(); k++) if(r.index(k) >= 0 && r.index(k) < en) row[r.index(k)] = Q(r.value(k));
+         for(int j = 0; j < en; j++) if(row[j] != M->A[i][j]) return "rational matrix entry (" + std::to_string(i) + "," + std::to_string(j) + ") differs";
+      }
+   }
+   return "";
+}
+
+// ------------------------------------------------------------------------------------------------ case context
+struct NullBuf : public std::streambuf
+{
+   long chars = 0;
+   int overflow(int c) override
+   {
+      if(c != EOF) chars++;
+      return c;
+   }
+};
+static NullBuf g_nullbuf;
+static std::ostream g_nullos(&g_nullbuf);
+static void silence(SoPlex& s)      // solver messages must not reach stdout (event protocol); verbosity itself is left alone
+{
+   for(int v = 0; v <= 5; v++) s.spxout.setStream((SPxOut::Verbosity)v, g_nullos);
+}
+static void loadLPInto(SoPlex& s, Model& m, const LPModel& M, int mode)
+{
+   loadReal(s, M, mode);                         // sets objsense and obj_offset through the typed setters
+   m.i[SoPlex::OBJSENSE] = M.sense > 0 ? 1 : -1;
+   m.r[SoPlex::OBJ_OFFSET] = dq(M.offset);
+}
+
+struct Ctx
+{
+   Rng& g;
+   long long k;
+   std::unique_ptr<SoPlex> sp;
+   Model m;
+   bool hasLP = false;
+   LPModel M;
+   int loadMode = 0;
+   std::vector<std::string> hist;
+   uint64_t shape = 1469598103934665603ULL;
+   int nops = 0, nviolOps = 0;
+   bool dead = false;          // state could not be re-synchronised: stop the case
+   int fileCounter = 0;
+   std::unique_ptr<SoPlex> donor;
+   Model dm;
+   std::unique_ptr<SoPlex::Settings> snap;
+   Model snapm;
+
+   Ctx(Rng& g_, long long k_) : g(g_), k(k_)
+   {
+      sp.reset(new SoPlex());
+      silence(*sp);
+   }
+   std::string tmpFile()
+   {
+      return cli.tmpdir + "/c15_" + std::to_string((long)getpid()) + "_" + std::to_string(k) + "_" + std::to_string(fileCounter++) + ".set";
+   }
+   std::string replay(const std::string& extra = "")
+   {
+      std::string a = "[";
+      size_t from = hist.size() > 80 ? hist.size() - 80 : 0;
+      for(size_t q = from; q < hist.size(); q++) a += (q > from ? "," : "") + std::string("\"") + jesc(hist[q]) + "\"";
+      a += "]";
+      Json j;
+      j.raw("history", a).boolean("lp_loaded", hasLP);
+      if(hasLP) j.str("lp_text", M.toLPText());
+      if(!extra.empty()) j.str("input", extra);
+      return j.done();
+   }
+   void note(const std::string& op, const std::string& pname, const std::string& cls, const std::string& what)
+   {
+      Sink& S = sink();
+      nops++;
+      S.count("ops.total");
+      S.count("ops." + op);
+      if(pname != "-" || cls != "-") S.count("pc." + pname + "." + cls);
+      S.seen("cells", fnv(op + ":" + pname + ":" + cls));
+      shape = fnv(op + ":" + pname + ":" + cls, shape);
+      hist.push_back(what);
+      if(verbose) fprintf(stderr, "  op %3d %s\n", nops, what.c_str());
+   }
+   void viol(const std::string& key, const std::string& detail, const std::string& extra = "")
+   {
+      if(verbose) fprintf(stderr, "  VIOL %s | %s\n", key.c_str(), detail.c_str());
+      sink().viol(key, detail + " | after: " + (hist.empty() ? "" : hist.back()), replay(extra));
+   }
+   std::vector<Mis> diffAll()
+   {
+      std::vector<Mis> out;
+      checkParams(*sp, m, out);
+      std::string d = lpDiff(*sp, m, hasLP ? &M : nullptr);
+      if(!d.empty()) out.push_back({"-", "lp", d});
+      return out;
+   }
+   // after a violation: rebuild a fresh object from the model through the typed setters
+   void heal()
+   {
+      Sink& S = sink();
+      S.count("heal.rebuilds");
+      nviolOps++;
+      sp.reset(new SoPlex());
+      silence(*sp);
+      Model target = m;
+      Model fresh;
+      if(hasLP) loadLPInto(*sp, fresh, M, loadMode);
+      bool ok = true;
+      for(int p = 0; p < T.nb; p++) ok = sp->setBoolParam((SoPlex::BoolParam)p, target.b[p]) && ok;
+      for(int p = 0; p < T.ni; p++) ok = sp->setIntParam((SoPlex::IntParam)p, target.i[p]) && ok;
+      for(int p = 0; p < T.nr; p++) ok = sp->setRealParam((SoPlex::RealParam)p, target.r[p]) && ok;
+      sp->setRandomSeed(target.seed);
+      m.rat = target.i[SoPlex::SYNCMODE] == 0 ? 0 : target.i[SoPlex::SYNCMODE] == 1 ? 1 : 2;
+      std::vector<Mis> d = diffAll();
+      if(!ok || !d.empty())
+      {
+         S.count("heal.failed");
+         dead = true;
+         if(verbose) fprintf(stderr, "  heal failed: %s\n", d.empty() ? "setter returned false" : d[0].detail.c_str());
+      }
+      hist.push_back("<object rebuilt from the model through the typed setters>");
+   }
+   // verdict for an operation that targets one parameter
+   void judgeSingle(const std::string& op, const std::string& pname, const std::string& cls, bool expRet, const Exec& e, const std::string& input = "")
+   {
+      std::string base = "C15:" + op + ":" + pname + ":" + cls;
+      if(e.crashed)
+      {
+         viol(base + ":crash-" + sigName(e.sig), std::string("the call dies with ") + sigName(e.sig) + " (observed in a forked probe; the call was not repeated in the worker)", input);
+         sink().count("viol.crash");
+         nviolOps++;
+         return;
+      }
+      if(e.threw)
+      {
+         viol("C15:exception:" + op + ":" + pname + ":" + e.extype, "exception " + e.extype + " escapes " + op + " (documented failure mode is the bool return); parameter class " + cls, input);
+         heal();
+         return;
+      }
+      bool bad = false;
+      if(e.ret != expRet)
+      {
+         viol(base + (e.ret ? ":accepted" : ":rejected"), op + " returned " + (e.ret ? "true" : "false") + ", the documented range/choices/build predict " + (expRet ? "true" : "false"), input);
+         bad = true;
+      }
+      std::vector<Mis> d = diffAll();
+      if(!bad)
+      {
+         std::set<std::string> keys;
+         for(auto& x : d)
+         {
+            std::string what;
+            if(!expRet) what = "not-atomic";
+            else if(x.kind == "value" && x.param == pname) what = "not-stored";
+            else if(x.kind == "seed" && pname == "random_seed") what = "not-stored";
+            else if(x.kind == "value" || x.kind == "seed") what = "side-effect:" + x.param;
+            else if(x.kind == "lp") what = "lp-changed";
+            else what = x.kind;
+            if(keys.insert(what).second) viol(base + ":" + what, x.detail, input);
+         }
+      }
+      if(bad || !d.empty()) heal();
+   }
+   // ---- typed operations
+   void setBool(int p, bool v, bool init, const std::string& cls)
+   {
+      note("setBoolParam", T.bn[p], cls, "setBoolParam(" + T.bn[p] + ", " + (v ? "true" : "false") + ", init=" + (init ? "true" : "false") + ") [" + cls + "]");
+      bool exp = predBool(m, p, v);
+      SoPlex* s = sp.get();
+      Exec e = runProbed([ = ]() { return s->setBoolParam((SoPlex::BoolParam)p, v, init); }, false);
+      judgeSingle("setBoolParam", T.bn[p], cls, exp, e);
+   }
+   void setInt(int p, int v, bool init, const std::string& cls)
+   {
+      note("setIntParam", T.in[p], cls, "setIntParam(" + T.in[p] + ", " + std::to_string(v) + ", init=" + (init ? "true" : "false") + ") [" + cls + "]");
+      bool exp = predInt(m, p, v);
+      SoPlex* s = sp.get();
+      Exec e = runProbed([ = ]() { return s->setIntParam((SoPlex::IntParam)p, v, init); }, false);
+      judgeSingle("setIntParam", T.in[p], cls, exp, e);
+   }
+   void setReal(int p, double v, bool init, const std::string& cls)
+   {
+      note("setRealParam", T.rn[p], cls, "setRealParam(" + T.rn[p] + ", " + ds(v) + ", init=" + (init ? "true" : "false") + ") [" + cls + "]");
+      bool exp = predReal(m, p, v);
+      SoPlex* s = sp.get();
+      Exec e = runProbed([ = ]() { return s->setRealParam((SoPlex::RealParam)p, v, init); }, !std::isfinite(v));
+      judgeSingle("setRealParam", T.rn[p], cls, exp, e);
+   }
+   void setSeed(unsigned v, const std::string& cls)
+   {
+      note("setRandomSeed", "random_seed", cls, "setRandomSeed(" + std::to_string(v) + ") [" + cls + "]");
+      m.seed = v;
+      SoPlex* s = sp.get();
+      Exec e = runProbed([ = ]() { s->setRandomSeed(v); return true; }, false);
+      judgeSingle("setRandomSeed", "random_seed", cls, true, e);
+   }
+   // ---- parseSettingsString
+   void parse(const Line& l)
+   {
+      std::string pn = l.kind == 2 ? "-" : l.pname;
+      note("parseSettingsString", pn, l.cls, "parseSettingsString(\"" + l.text + "\") [" + l.cls + "]");
+      bool exp = predLine(m, l);
+      SoPlex* s = sp.get();
+      std::string text = l.text;
+      bool risky = l.kind == 0 && l.ptype == 'r' && l.parsable && !std::isfinite(l.rv);
+      Exec e = runProbed([ = ]()
+      {
+         std::vector<char> buf(text.begin(), text.end());      // exactly sized heap buffer: an over-read is an ASan report
+         buf.push_back('\0');
+         return s->parseSettingsString(buf.data());
+      }, risky);
+      if(e.threw)
+      {
+         viol(std::string("C15:exception:parseSettingsString:") + typeWord(l.ptype) + "-value:" + e.extype,
+              "exception " + e.extype + " escapes parseSettingsString(\"" + l.text + "\") (documented failure mode is the bool return)", l.text);
+         heal();
+         return;
+      }
+      judgeSingle("parseSettingsString", pn, l.cls, exp, e, l.text);
+   }
+   // ---- loadSettingsFile
+   void loadFile(const std::vector<Line>& lines, bool trailingNewline, bool missingFile)
+   {
+      Sink& S = sink();
+      std::string path = tmpFile();
+      std::string content;
+      const Line* special = nullptr;
+      for(size_t q = 0; q < lines.size(); q++)
+      {
+         content += lines[q].text;
+         if(q + 1 < lines.size() || trailingNewline) content += "\n";
+         if(!special && lines[q].kind != 1 && lines[q].cls != "valid" && lines[q].cls != "true" && lines[q].cls != "false") special = &lines[q];
+      }
+      std::string pn = special ? (special->kind == 2 ? "-" : special->pname) : "-", cl = special ? special->cls : (missingFile ? "missing-file" : "valid-lines");
+      note("loadSettingsFile", pn, cl, "loadSettingsFile(" + std::to_string(lines.size()) + " lines" + (missingFile ? ", file does not exist" : "") + ") [" + cl + "]: " + content.substr(0, 400));
+      S.count("file.lines", (long long)lines.size());
+      bool expRet = true;
+      if(missingFile) expRet = false;
+      else
+      {
+         std::ofstream f(path);
+         f << content;
+         f.close();
+         for(auto& l : lines)
+         {
+            if(l.kind == 3)
+            {
+               expRet = false;      // documented: line too long => error, reading stops
+               break;
+            }
+            predLine(m, l);        // failures of single lines are reported by a message only; the file load goes on
+         }
+      }
+      SoPlex* s = sp.get();
+      bool risky = false;
+      for(auto& l : lines) if(l.kind == 0 && l.ptype == 'r' && l.parsable && !std::isfinite(l.rv)) risky = true;
+      Exec e = runProbed([ = ]() { return s->loadSettingsFile(path.c_str()); }, risky);
+      unlink(path.c_str());
+      std::string base = "C15:loadSettingsFile:" + pn + ":" + cl;
+      if(e.crashed)
+      {
+         viol(base + ":crash-" + sigName(e.sig), std::string("loadSettingsFile dies with ") + sigName(e.sig) + " (forked probe)", content);
+         S.count("viol.crash");
+         // the model already contains the effect of the lines: rebuild the object from it minus the special line
+         heal();
+         return;
+      }
+      if(e.threw)
+      {
+         const Line* cul = nullptr;
+         for(auto& l : lines) if(l.kind == 0 && (!l.parsable || (l.ptype == 'r' && l.rv != 0 && std::fabs(l.rv) < 2.3e-308))) { cul = &l; break; }
+         viol(std::string("C15:exception:loadSettingsFile:") + (cul ? typeWord(cul->ptype) : "unknown") + "-value:" + e.extype,
+              "exception " + e.extype + " escapes loadSettingsFile (documented failure mode is a message and the bool return)" + (cul ? "; line <" + cul->text + ">" : ""), content);
+         heal();
+         return;
+      }
+      bool bad = false;
+      if(e.ret != expRet)
+      {
+         viol(base + (e.ret ? ":returned-true" : ":returned-false"), std::string("loadSettingsFile returned ") + (e.ret ? "true" : "false") + ", documented behaviour predicts " + (expRet ? "true" : "false"), content);
+         bad = true;
+      }
+      std::vector<Mis> d = diffAll();
+      std::set<std::string> keys;
+      for(auto& x : d)
+      {
+         const Line* tl = nullptr;
+         for(auto& l : lines) if(l.kind == 0 && l.pname == x.param) tl = &l;
+         std::string key;
+         if(tl)
+         {
+            Model tmp = m;
+            bool lexp = tl->parsable && predLine(tmp, *tl);
+            std::string what = lexp ? (x.kind == "value" || x.kind == "seed" ? "not-stored" : x.kind) : (x.kind == "value" ? "accepted" : "not-atomic");
+            key = "C15:loadSettingsFile:" + tl->pname + ":" + tl->cls + ":" + what;
+         }
+         else key = "C15:loadSettingsFile:" + x.param + ":-:" + (x.kind == "lp" ? "lp-changed" : x.kind == "value" || x.kind == "seed" ? "side-effect" : x.kind);
+         if(keys.insert(key).second) viol(key, x.detail, content);
+      }
+      if(bad || !d.empty()) heal();
+   }
+   // ---- saveSettingsFile + independent reading + reload into a fresh object
+   void saveReload(bool onlyChanged)
+   {
+      Sink& S = sink();
+      std::string path = tmpFile();
+      std::string oc = onlyChanged ? "only-changed" : "all";
+      note("saveSettingsFile", "-", oc, "saveSettingsFile(onlyChanged=" + std::string(onlyChanged ? "true" : "false") + ") + reload into a fresh object");
+      SoPlex* s = sp.get();
+      Exec e = runProbed([ = ]() { return s->saveSettingsFile(path.c_str(), onlyChanged); }, false);
+      if(e.crashed || e.threw)
+      {
+         judgeSingle("saveSettingsFile", "-", oc, true, e);
+         unlink(path.c_str());
+         return;
+      }
+      judgeSingle("saveSettingsFile", "-", oc, true, e);     // returns true, changes nothing
+      if(dead)
+      {
+         unlink(path.c_str());
+         return;
+      }
+      std::vector<SavedEntry> ent;
+      std::string err;
+      if(!readSaved(path, ent, err))
+      {
+         viol("C15:saveSettingsFile:-:" + oc + ":unreadable", "saved settings file cannot be read back: " + err);
+         unlink(path.c_str());
+         return;
+      }
+      S.count("save.entries", (long long)ent.size());
+      // (a) the file states the model
+      std::map<std::string, const SavedEntry*> byName;
+      for(auto& x : ent)
+      {
+         std::string nm = x.type + ":" + x.name;
+         if(byName.count(nm)) viol("C15:saveSettingsFile:" + x.name + ":" + oc + ":duplicate", "parameter written twice");
+         byName[nm] = &x;
+      }
+      Model fm;                       // expected state of a fresh object after loading the file
+      size_t expected = 0;
+      for(int p = 0; p < T.nb; p++)
+      {
+         bool want = !onlyChanged || m.b[p] != T.bdef[p];
+         auto it = byName.find("bool:" + T.bn[p]);
+         if(want != (it != byName.end())) viol("C15:saveSettingsFile:" + T.bn[p] + ":" + oc + (want ? ":missing" : ":unexpected"), "bool parameter " + T.bn[p] + (want ? " is not written" : " is written although unchanged"));
+         if(it == byName.end()) continue;
+         expected++;
+         if(it->second->value != (m.b[p] ? "true" : "false")) viol("C15:saveSettingsFile:" + T.bn[p] + ":" + oc + ":wrong-value", "written <" + it->second->value + "> for " + (m.b[p] ? "true" : "false"));
+         if(it->second->rangeLine != std::string("{true, false}, default ") + (T.bdef[p] ? "true" : "false")) viol("C15:saveSettingsFile:" + T.bn[p] + ":" + oc + ":wrong-doc", "documentation line <" + it->second->rangeLine + ">");
+         fm.b[p] = m.b[p];
+      }
+      for(int p = 0; p < T.ni; p++)
+      {
+         bool want = !onlyChanged || m.i[p] != T.idef[p];
+         auto it = byName.find("int:" + T.in[p]);
+         if(want != (it != byName.end())) viol("C15:saveSettingsFile:" + T.in[p] + ":" + oc + (want ? ":missing" : ":unexpected"), "int parameter " + T.in[p] + (want ? " is not written" : " is written although unchanged"));
+         if(it == byName.end()) continue;
+         expected++;
+         if(it->second->value != std::to_string(m.i[p])) viol("C15:saveSettingsFile:" + T.in[p] + ":" + oc + ":wrong-value", "written <" + it->second->value + "> for " + std::to_string(m.i[p]));
+         std::string doc = "[" + std::to_string(T.ilo[p]) + "," + std::to_string(T.ihi[p]) + "], default " + std::to_string(T.idef[p]);
+         if(it->second->rangeLine != doc) viol("C15:saveSettingsFile:" + T.in[p] + ":" + oc + ":wrong-doc", "documentation line <" + it->second->rangeLine + ">, table says <" + doc + ">");
+         Model tmp = fm;
+         predInt(fm, p, m.i[p]);
+      }
+      for(int p = 0; p < T.nr; p++)
+      {
+         bool want = !onlyChanged || !(m.r[p] == T.rdef[p]);
+         auto it = byName.find("real:" + T.rn[p]);
+         if(want != (it != byName.end())) viol("C15:saveSettingsFile:" + T.rn[p] + ":" + oc + (want ? ":missing" : ":unexpected"), "real parameter " + T.rn[p] + (want ? " is not written" : " is written although unchanged"));
+         if(it == byName.end()) continue;
+         expected++;
+         // printed precision: scientific with 8 decimals (SPxOut::setScientific documents precision 8); the text must be the correct rounding
+         if(it->second->value != sci8(m.r[p])) viol("C15:saveSettingsFile:" + T.rn[p] + ":" + oc + ":bad-precision", "written <" + it->second->value + "> for " + ds(m.r[p]) + ", expected <" + sci8(m.r[p]) + ">");
+         std::string doc = "[" + sci8(T.rlo[p]) + "," + sci8(T.rhi[p]) + "], default " + sci8(T.rdef[p]);
+         if(it->second->rangeLine != doc) viol("C15:saveSettingsFile:" + T.rn[p] + ":" + oc + ":wrong-doc", "documentation line <" + it->second->rangeLine + ">, table says <" + doc + ">");
+         double back = strtod(sci8(m.r[p]).c_str(), nullptr);
+         double rel = std::fabs(back - m.r[p]) / std::max(std::fabs(m.r[p]), 1e-300);
+         if(m.r[p] != 0 && std::fabs(m.r[p]) > 1e-300) S.maxi("save.real_roundtrip_relerr/5e-9", rel / 5e-9);
+         predReal(fm, p, back);
+      }
+      {
+         bool want = !onlyChanged || m.seed != 0;
+         auto it = byName.find("uint:random_seed");
+         if(want != (it != byName.end())) viol("C15:saveSettingsFile:random_seed:" + oc + (want ? ":missing" : ":unexpected"), std::string("random seed ") + (want ? "is not written" : "is written although unchanged"));
+         if(it != byName.end())
+         {
+            expected++;
+            if(it->second->value != std::to_string(m.seed)) viol("C15:saveSettingsFile:random_seed:" + oc + ":wrong-value", "written <" + it->second->value + "> for " + std::to_string(m.seed));
+            fm.seed = m.seed;
+         }
+      }
+      if(ent.size() != expected) viol("C15:saveSettingsFile:-:" + oc + ":unknown-entries", std::to_string(ent.size()) + " entries written, " + std::to_string(expected) + " expected");
+      // (b) reload
+      S.count("ops.reload");
+      std::unique_ptr<SoPlex> f(new SoPlex());
+      silence(*f);
+      SoPlex* fp = f.get();
+      Exec e2 = runProbed([ = ]() { return fp->loadSettingsFile(path.c_str()); }, false);
+      unlink(path.c_str());
+      if(e2.crashed)
+      {
+         viol("C15:reload:-:" + oc + ":crash-" + sigName(e2.sig), "loading the file written by saveSettingsFile dies");
+         return;
+      }
+      if(e2.threw)
+      {
+         std::string culprit;
+         for(int p = 0; p < T.nr; p++) if(m.r[p] != 0 && std::fabs(m.r[p]) < 2.3e-308) culprit = T.rn[p];
+         viol("C15:exception:loadSettingsFile:real-value:" + e2.extype, "exception " + e2.extype + " escapes loadSettingsFile while re-loading a file written by saveSettingsFile" +
+              (culprit.empty() ? "" : " (subnormal value of " + culprit + ")"));
+         return;
+      }
+      if(!e2.ret) viol("C15:reload:-:" + oc + ":returned-false", "loadSettingsFile fails on a file written by saveSettingsFile");
+      std::vector<Mis> d;
+      checkParams(*f, fm, d);
+      std::string ld = lpDiff(*f, fm, nullptr);
+      if(!ld.empty()) d.push_back({"-", "lp", ld});
+      std::set<std::string> keys;
+      for(auto& x : d)
+      {
+         std::string key = "C15:reload:" + x.param + ":" + oc + ":" + (x.kind == "value" || x.kind == "seed" ? "mismatch" : x.kind == "lp" ? "lp-changed" : x.kind);
+         if(keys.insert(key).second) viol(key, "after save + reload into a fresh object: " + x.detail);
+      }
+      // the property literally: bool/int exactly, reals to the printed precision
+      for(int p = 0; p < T.nb; p++) if(f->boolParam((SoPlex::BoolParam)p) != (bool)m.b[p]) viol("C15:reload:" + T.bn[p] + ":" + oc + ":not-reproduced", "bool parameter not reproduced by save + reload");
+      for(int p = 0; p < T.ni; p++) if(f->intParam((SoPlex::IntParam)p) != m.i[p]) viol("C15:reload:" + T.in[p] + ":" + oc + ":not-reproduced", "int parameter not reproduced by save + reload");
+      for(int p = 0; p < T.nr; p++)
+      {
+         double a = f->realParam((SoPlex::RealParam)p), b = m.r[p];
+         bool ok = a == b || std::fabs(a - b) <= 5.0000001e-9 * std::fabs(b);
+         if(!ok) viol("C15:reload:" + T.rn[p] + ":" + oc + ":not-reproduced", "real parameter " + ds(b) + " came back as " + ds(a) + " (beyond the printed precision)");
+      }
+      if(f->randomSeed() != m.seed) viol("C15:reload:random_seed:" + oc + ":not-reproduced", "random seed not reproduced by save + reload");
+      S.count("reload.checked");
+   }
+   // ---- resetSettings
+   void reset(bool quiet, bool init)
+   {
+      note("resetSettings", "-", init ? "init" : "noinit", std::string("resetSettings(quiet=") + (quiet ? "true" : "false") + ", init=" + (init ? "true" : "false") + ")");
+      Model old = m;
+      Model def;
+      def.rat = 0;
+      m.b = def.b;
+      m.i = def.i;
+      m.r = def.r;
+      m.seed = 0;            // documented default of uint:random_seed (saveSettingsFile: "default 0")
+      m.rat = 0;             // default syncmode is only-real
+      SoPlex* s = sp.get();
+      Exec e = runProbed([ = ]() { s->resetSettings(quiet, init); return true; }, false);
+      if(e.crashed || e.threw)
+      {
+         judgeSingle("resetSettings", "-", "-", true, e);
+         return;
+      }
+      std::vector<Mis> d = diffAll();
+      std::set<std::string> keys;
+      for(auto& x : d)
+      {
+         std::string key = "C15:resetSettings:" + x.param + ":-:" + (x.kind == "value" || x.kind == "seed" ? "not-reset" : x.kind == "lp" ? "lp-changed" : x.kind);
+         if(keys.insert(key).second) viol(key, "after resetSettings: " + x.detail);
+      }
+      if(!d.empty()) heal();
+   }
+   // ---- setSettings
+   void makeDonor()
+   {
+      if(!donor)
+      {
+         donor.reset(new SoPlex());
+         silence(*donor);
+         dm = Model();
+      }
+      int n = g.range(1, 6);
+      for(int q = 0; q < n; q++)
+      {
+         int w = g.range(0, T.nb + T.ni + T.nr - 1);
+         if(w < T.nb)
+         {
+            bool v = g.chance(0.5);
+            if(predBool(dm, w, v)) donor->setBoolParam((SoPlex::BoolParam)w, v);
+         }
+         else if(w < T.nb + T.ni)
+         {
+            int p = w - T.nb, v = randomValidInt(g, p, dm.i[p]);
+            if(predInt(dm, p, v)) donor->setIntParam((SoPlex::IntParam)p, v);
+         }
+         else
+         {
+            int p = w - T.nb - T.ni;
+            double v = randomValidReal(g, p, dm.r[p]);
+            if(predReal(dm, p, v)) donor->setRealParam((SoPlex::RealParam)p, v);
+         }
+      }
+      std::vector<Mis> d;
+      checkParams(*donor, dm, d);
+      if(!d.empty())
+      {
+         // the donor only receives valid typed sets; a mismatch here is reported by the main object's monitors as well
+         sink().count("donor.out_of_sync");
+         donor.reset();
+      }
+   }
+   void takeSnapshot()
+   {
+      note("settings()", "-", "-", "snapshot = settings()");
+      snap.reset(new SoPlex::Settings(sp->settings()));
+      snapm = m;
+   }
+   void setSettings(bool fromSnap, bool init)
+   {
+      const SoPlex::Settings* src = nullptr;
+      Model sm;
+      if(fromSnap && snap)
+      {
+         src = snap.get();
+         sm = snapm;
+      }
+      else
+      {
+         makeDonor();
+         if(!donor) return;
+         src = &donor->settings();
+         sm = dm;
+         fromSnap = false;
+      }
+      std::string cls = "-";
+      if(m.i[SoPlex::SYNCMODE] == 0 && sm.i[SoPlex::SYNCMODE] == 1) cls = "onlyreal-to-auto";
+      note("setSettings", cls == "-" ? "-" : "syncmode", cls, std::string("setSettings(") + (fromSnap ? "earlier snapshot of settings()" : "settings() of another object") + ", init=" + (init ? "true" : "false") + ")" +
+           (cls == "-" ? "" : " [syncmode only-real -> auto]"));
+      // model: all values as in the source; seed is not part of Settings
+      int oldSync = m.i[SoPlex::SYNCMODE];
+      m.b = sm.b;
+      m.r = sm.r;
+      for(int p = 0; p < T.ni; p++) if(p != SoPlex::SYNCMODE) m.i[p] = sm.i[p];
+      m.i[SoPlex::SYNCMODE] = oldSync;
+      predInt(m, SoPlex::SYNCMODE, sm.i[SoPlex::SYNCMODE]);
+      SoPlex* s = sp.get();
+      SoPlex::Settings copy(*src);
+      Exec e = runProbed([ =, &copy]() { return s->setSettings(copy, init); }, cls != "-");
+      if(e.crashed || e.threw)
+      {
+         judgeSingle("setSettings", cls == "-" ? "-" : "syncmode", cls, true, e);
+         return;
+      }
+      bool bad = false;
+      if(!e.ret)
+      {
+         viol("C15:setSettings:-:-:returned-false", "setSettings returned false for the settings of a valid object");
+         bad = true;
+      }
+      std::vector<Mis> d = diffAll();
+      std::set<std::string> keys;
+      for(auto& x : d)
+      {
+         std::string key = "C15:setSettings:" + x.param + ":" + cls + ":" + (x.kind == "value" ? "not-copied" : x.kind == "seed" ? "seed-changed" : x.kind == "lp" ? "lp-changed" : x.kind);
+         if(keys.insert(key).second) viol(key, "after setSettings: " + x.detail);
+      }
+      if(bad || !d.empty()) heal();
+   }
+   void loadLP()
+   {
+      if(hasLP || m.i[SoPlex::SYNCMODE] != 0) return;
+      for(int t = 0; t < 5; t++)
+      {
+         Instance I = genFamily(g, g.chance(0.5) ? "arbitrary" : "planted-opt", 5, 5);
+         if(!allExactDoubles(I.M)) continue;
+         M = I.M;
+         hasLP = true;
+         break;
+      }
+      if(!hasLP) return;
+      loadMode = g.range(0, 2);
+      note("loadLP", "-", "-", "load a " + std::to_string(M.m) + "x" + std::to_string(M.n) + " LP through addCols/addRows (sets objsense, obj_offset)");
+      loadLPInto(*sp, m, M, loadMode);
+      std::vector<Mis> d = diffAll();
+      for(auto& x : d) viol("C15:loadLP:" + x.param + ":-:" + x.kind, "after loading an LP: " + x.detail);
+      if(!d.empty()) heal();
+   }
+};
+
+// ------------------------------------------------------------------------------------------------ cases
+static void maybeLoadLP(Ctx& c, double prob)
+{
+   if(c.g.chance(prob)) c.loadLP();
+}
+static void randomValidSet(Ctx& c)
+{
+   Rng& g = c.g;
+   int w = g.range(0, T.nb + T.ni + T.nr - 1);
+   bool init = g.chance(0.5);
+   if(w < T.nb) c.setBool(w, g.chance(0.5), init, g.chance(0.5) ? "true" : "false");
+   else if(w < T.nb + T.ni)
+   {
+      int p = w - T.nb;
+      c.setInt(p, randomValidInt(g, p, c.m.i[p]), init, "valid");
+   }
+   else
+   {
+      int p = w - T.nb - T.ni;
+      c.setReal(p, randomValidReal(g, p, c.m.r[p]), init, "valid");
+   }
+}
+static std::vector<Line> noiseAround(Rng& g, const Line& l)
+{
+   std::vector<Line> v;
+   int before = g.range(0, 2), after = g.range(0, 2);
+   for(int q = 0; q < before; q++) v.push_back(commentLine(g));
+   v.push_back(l);
+   for(int q = 0; q < after; q++) v.push_back(commentLine(g));
+   return v;
+}
+// front: 0 typed setter, 1 parseSettingsString, 2 loadSettingsFile
+static void applyFront(Ctx& c, int front, const Line& l, bool init)
+{
+   if(front == 1) c.parse(l);
+   else if(front == 2) c.loadFile(noiseAround(c.g, l), c.g.chance(0.8), false);
+   else if(l.ptype == 'b') c.setBool(l.p, l.bv, init, l.cls);
+   else if(l.ptype == 'i') c.setInt(l.p, l.iv, init, l.cls);
+   else if(l.ptype == 'r') c.setReal(l.p, l.rv, init, l.cls);
+   else c.setSeed((unsigned)l.uv, l.cls);
+}
+static void malformedBlock(Ctx& c, int front, char pt, const std::string& name, const std::string& vtext)
+{
+   for(int w = 0; w < NMALFORMED && !c.dead; w++)
+   {
+      Line l = malformedLine(w, pt, name, vtext);
+      if(front == 1) c.parse(l);
+      else c.loadFile(noiseAround(c.g, l), c.g.chance(0.8), false);
+   }
+}
+
+static int numEnumCases()
+{
+   return 3 * (T.nb + T.ni + T.nr + 1);
+}
+// complete enumeration: (front end) x (parameter) x (value class), each class from several valid base values
+static void enumCase(Ctx& c, long long k)
+{
+   Rng& g = c.g;
+   Sink& S = sink();
+   int front = (int)(k % 3), w = (int)(k / 3);
+   S.count("enum.cases");
+   maybeLoadLP(c, 0.5);
+   int pre = g.range(0, 5);
+   for(int q = 0; q < pre && !c.dead; q++) randomValidSet(c);
+   int layoutCtr = g.range(0, NLAYOUT - 1);
+   if(w < T.nb)
+   {
+      int p = w;
+      for(int base = 0; base < 2 && !c.dead; base++)
+      {
+         if(front == 0)
+         {
+            for(int v = 0; v < 2; v++) for(int in = 0; in < 2 && !c.dead; in++) c.setBool(p, (base + v) % 2, in, (base + v) % 2 ? "true" : "false");
+         }
+         else
+         {
+            for(int sp_ = 0; sp_ < 6 && !c.dead; sp_++) for(int v = 0; v < 2 && !c.dead; v++) applyFront(c, front, boolLine(p, (base + v) % 2, sp_, layoutCtr++, front == 2), true);
+            static const char* garbage[] = {"yes", "on", "no", "maybe", "x"};
+            if(!c.dead) applyFront(c, front, badValueLine('b', p, "bool-garbage", garbage[g.range(0, 4)], layoutCtr++, front == 2), true);
+            if(!c.dead) applyFront(c, front, badValueLine('b', p, "bool-number", g.chance(0.5) ? "2" : "3", layoutCtr++, front == 2), true);
+         }
+         if(!c.dead) c.setBool(p, !c.m.b[p], true, c.m.b[p] ? "false" : "true");
+      }
+      if(front != 0 && !c.dead) malformedBlock(c, front, 'b', T.bn[p], "true");
+   }
+   else if(w < T.nb + T.ni)
+   {
+      int p = w - T.nb;
+      std::vector<int> bases;
+      bases.push_back(INT_MIN);       // keep current
+      if(!T.ienum[p].empty() || (long long)T.ihi[p] - T.ilo[p] <= 8)
+      {
+         for(int v = T.ilo[p]; v <= T.ihi[p]; v++) if(validInt(p, v)) bases.push_back(v);
+      }
+      else bases.push_back(randomValidInt(g, p, c.m.i[p]));
+      for(int base : bases)
+      {
+         if(c.dead) break;
+         if(base != INT_MIN) c.setInt(p, base, true, "valid");
+         std::vector<IV> cl = intClasses(g, p, c.m.i[p]);
+         for(auto& x : cl)
+         {
+            if(c.dead) break;
+            int v = x.cls == "same" ? c.m.i[p] : x.v;
+            applyFront(c, front, intLine(p, x.cls, v, layoutCtr++, front == 2, g.chance(0.3)), g.chance(0.5));
+         }
+         if(front != 0)
+         {
+            if(!c.dead) applyFront(c, front, badValueLine('i', p, "int-overflow", g.chance(0.5) ? "99999999999" : "-99999999999", layoutCtr++, front == 2), true);
+            if(!c.dead) applyFront(c, front, badValueLine('i', p, "int-garbage", g.chance(0.5) ? "abc" : "x1", layoutCtr++, front == 2), true);
+         }
+      }
+      if(front != 0 && !c.dead) malformedBlock(c, front, 'i', T.in[p], "1");
+   }
+   else if(w < T.nb + T.ni + T.nr)
+   {
+      int p = w - T.nb - T.ni;
+      for(int base = 0; base < 2 && !c.dead; base++)
+      {
+         if(base == 1) c.setReal(p, randomValidReal(g, p, c.m.r[p]), true, "valid");
+         std::vector<RV> cl = realClasses(g, p, c.m.r[p]);
+         for(auto& x : cl)
+         {
+            if(c.dead) break;
+            double v = x.cls == "same" ? c.m.r[p] : x.v;
+            applyFront(c, front, realLine(p, x.cls, v, layoutCtr++, front == 2, g.range(0, 2)), g.chance(0.5));
+         }
+         if(front != 0)
+         {
+            if(!c.dead) applyFront(c, front, badValueLine('r', p, "real-overflow", g.chance(0.5) ? "1e999" : "-1e999", layoutCtr++, front == 2), true);
+            if(!c.dead) applyFront(c, front, badValueLine('r', p, "real-garbage", g.chance(0.5) ? "abc" : "e5", layoutCtr++, front == 2), true);
+         }
+      }
+      if(front != 0 && !c.dead) malformedBlock(c, front, 'r', T.rn[p], "0.5");
+   }
+   else
+   {
+      struct SC { const char* cls; unsigned long long v; };
+      std::vector<SC> cl = {{"min", 0ULL}, {"valid", 1ULL}, {"valid", (unsigned long long)g.range(2, 1000000)}, {"max", (unsigned long long)UINT_MAX}, {"valid", 0x80000000ULL}, {"same", 0ULL}};
+      for(int rep = 0; rep < 2 && !c.dead; rep++)
+      {
+         for(auto& x : cl)
+         {
+            if(c.dead) break;
+            unsigned long long v = std::string(x.cls) == "same" ? c.m.seed : x.v;
+            applyFront(c, front, seedLine(x.cls, v, layoutCtr++, front == 2), true);
+         }
+         if(front != 0)
+         {
+            if(!c.dead) applyFront(c, front, seedLine("above-max-converted", (unsigned long long)UINT_MAX + 1ULL + (unsigned long long)g.range(0, 1000), layoutCtr++, front == 2), true);
+            if(!c.dead) applyFront(c, front, badValueLine('u', 0, "uint-garbage", "abc", layoutCtr++, front == 2), true);
+            if(!c.dead) applyFront(c, front, badValueLine('u', 0, "uint-overflow", "99999999999999999999999", layoutCtr++, front == 2), true);
+            Line l = seedLine("unknown-name", 5, layoutCtr++, front == 2);
+            l.kind = 2;
+            l.text = "uint:randomseed = 5";
+            if(!c.dead) applyFront(c, front, l, true);
+         }
+         if(!c.dead) c.saveReload(rep == 0);
+         if(!c.dead) c.reset(false, rep == 0);
+      }
+      if(front != 0 && !c.dead) malformedBlock(c, front, 'u', "random_seed", "7");
+      if(front == 2 && !c.dead)
+      {
+         // file-level behaviour: missing file, overlong line (documented error, reading stops), long-but-legal line, no trailing newline
+         c.loadFile({}, false, true);
+         Line ok1 = intLine(SoPlex::ITERLIMIT, "valid", 17, 1, true), ok2 = intLine(SoPlex::DISPLAYFREQ, "valid", 33, 1, true);
+         Line lng;
+         lng.kind = 3;
+         lng.cls = "overlong-line";
+         lng.text = "# " + std::string(600, 'x');
+         if(!c.dead) c.loadFile({ok1, lng, ok2}, true, false);
+         Line lg2;
+         lg2.kind = 1;
+         lg2.cls = "comment";
+         lg2.text = "# " + std::string(490, 'y');       // 492 characters: below the documented limit of 498
+         Line ok3 = intLine(SoPlex::ITERLIMIT, "valid", 19, 0, true);
+         if(!c.dead) c.loadFile({lg2, ok3}, false, false);
+         if(!c.dead) c.loadFile({}, false, false);      // empty file
+      }
+   }
+   if(!c.dead) c.saveReload(g.chance(0.5));
+}
+
+static Line randomLine(Ctx& c, bool forFile, double pSpecial)
+{
+   Rng& g = c.g;
+   int L = g.range(0, NLAYOUT - 1);
+   if(g.chance(0.08)) return commentLine(g);
+   bool special = g.chance(pSpecial);
+   int w = g.range(0, T.nb + T.ni + T.nr + 1);
+   if(w < T.nb)
+   {
+      if(special && g.chance(0.3)) return badValueLine('b', w, g.chance(0.5) ? "bool-garbage" : "bool-number", g.chance(0.5) ? "yes" : "2", L, forFile);
+      if(special && g.chance(0.3)) return malformedLine(g.range(0, NMALFORMED - 1), 'b', T.bn[w], "true");
+      return boolLine(w, g.chance(0.5), g.range(0, 5), L, forFile);
+   }
+   if(w < T.nb + T.ni)
+   {
+      int p = w - T.nb;
+      if(special)
+      {
+         if(g.chance(0.25)) return malformedLine(g.range(0, NMALFORMED - 1), 'i', T.in[p], "3");
+         if(g.chance(0.15)) return badValueLine('i', p, g.chance(0.5) ? "int-garbage" : "int-overflow", g.chance(0.5) ? "abc" : "99999999999", L, forFile);
+         std::vector<IV> cl = intClasses(g, p, c.m.i[p]);
+         IV x = g.pick(cl);
+         return intLine(p, x.cls, x.cls == "same" ? c.m.i[p] : x.v, L, forFile, g.chance(0.2));
+      }
+      return intLine(p, "valid", randomValidInt(g, p, c.m.i[p]), L, forFile, g.chance(0.2));
+   }
+   if(w < T.nb + T.ni + T.nr)
+   {
+      int p = w - T.nb - T.ni;
+      if(special)
+      {
+         if(g.chance(0.25)) return malformedLine(g.range(0, NMALFORMED - 1), 'r', T.rn[p], "0.25");
+         if(g.chance(0.15)) return badValueLine('r', p, g.chance(0.5) ? "real-garbage" : "real-overflow", g.chance(0.5) ? "abc" : "1e999", L, forFile);
+         std::vector<RV> cl = realClasses(g, p, c.m.r[p]);
+         RV x = g.pick(cl);
+         return realLine(p, x.cls, x.cls == "same" ? c.m.r[p] : x.v, L, forFile, g.range(0, 2));
+      }
+      return realLine(p, "valid", randomValidReal(g, p, c.m.r[p]), L, forFile, g.range(0, 2));
+   }
+   return seedLine("valid", (unsigned long long)g.range(0, 100000), L, forFile);
+}
+
+static void historyCase(Ctx& c, bool bulkHeavy)
+{
+   Rng& g = c.g;
+   Sink& S = sink();
+   S.count(bulkHeavy ? "history.bulk_cases" : "history.cases");
+   maybeLoadLP(c, 0.6);
+   int len = 40;
+   for(int step = 0; step < len && !c.dead; step++)
+   {
+      int r = g.range(0, 99);
+      if(bulkHeavy) r = r < 40 ? r : 60 + (r % 40);
+      if(r < 30)
+      {
+         if(g.chance(0.8)) randomValidSet(c);
+         else
+         {
+            int w = g.range(0, T.ni + T.nr - 1);
+            bool init = g.chance(0.5);
+            if(w < T.ni)
+            {
+               std::vector<IV> cl = intClasses(g, w, c.m.i[w]);
+               IV x = g.pick(cl);
+               c.setInt(w, x.cls == "same" ? c.m.i[w] : x.v, init, x.cls);
+            }
+            else
+            {
+               int p = w - T.ni;
+               std::vector<RV> cl = realClasses(g, p, c.m.r[p]);
+               RV x = g.pick(cl);
+               c.setReal(p, x.cls == "same" ? c.m.r[p] : x.v, init, x.cls);
+            }
+         }
+      }
+      else if(r < 35) c.setSeed(g.chance(0.2) ? 0u : (unsigned)g.next(), "valid");
+      else if(r < 52) c.parse(randomLine(c, false, 0.2));
+      else if(r < 64)
+      {
+         int n = g.range(1, 6);
+         std::vector<Line> ls;
+         bool haveSpecial = false;
+         for(int q = 0; q < n; q++)
+         {
+            Line l = randomLine(c, true, haveSpecial ? 0.0 : 0.12);
+            if(l.kind != 1 && l.cls != "valid" && l.cls != "true" && l.cls != "false") haveSpecial = true;
+            ls.push_back(l);
+         }
+         c.loadFile(ls, g.chance(0.8), false);
+      }
+      else if(r < 73) c.saveReload(g.chance(0.5));
+      else if(r < 79) c.reset(g.chance(0.5), g.chance(0.7));
+      else if(r < 88) c.setSettings(g.chance(0.4), g.chance(0.8));
+      else if(r < 93) c.takeSnapshot();
+      else if(r < 96) c.loadLP();
+      else randomValidSet(c);
+   }
+}
+
+// ------------------------------------------------------------------------------------------------ "what is set is what is used"
+// set one parameter through a random front end on a fresh object (no probe, no model: the effect is judged by behaviour)
+static bool setVia(SoPlex& s, Rng& g, const Line& l, std::string& how)
+{
+   int front = g.range(0, 2);
+   try
+   {
+      if(front == 0)
+      {
+         how = "typed setter";
+         if(l.ptype == 'i') return s.setIntParam((SoPlex::IntParam)l.p, l.iv);
+         if(l.ptype == 'r') return s.setRealParam((SoPlex::RealParam)l.p, l.rv);
+         return s.setBoolParam((SoPlex::BoolParam)l.p, l.bv);
+      }
+      if(front == 1)
+      {
+         how = "parseSettingsString";
+         std::vector<char> buf(l.text.begin(), l.text.end());
+         buf.push_back('\0');
+         return s.parseSettingsString(buf.data());
+      }
+      how = "loadSettingsFile";
+      std::string path = cli.tmpdir + "/c15b_" + std::to_string((long)getpid()) + ".set";
+      {
+         std::ofstream f(path);
+         f << "# behaviour probe\n" << l.text << "\n";
+      }
+      bool r = s.loadSettingsFile(path.c_str());
+      unlink(path.c_str());
+      return r;
+   }
+   catch(...)
+   {
+      return false;
+   }
+}
+static LPModel boxedLP(Rng& g)
+{
+   LPModel M;
+   M.n = g.range(2, 5);
+   M.m = g.range(1, 4);
+   M.A.assign(M.m, std::vector<Q>(M.n, Q(0)));
+   for(int i = 0; i < M.m; i++)
+   {
+      for(int j = 0; j < M.n; j++) if(g.chance(0.7)) M.A[i][j] = g.range(1, 5);
+      M.lhs.push_back(NINF());
+      M.rhs.push_back(Q(g.range(5, 20)));
+   }
+   for(int j = 0; j < M.n; j++)
+   {
+      M.lo.push_back(Q(0));
+      M.up.push_back(Q(g.range(1, 10)));
+      int cj = g.range(1, 9);
+      M.obj.push_back(Q(g.chance(0.5) ? cj : -cj));
+   }
+   M.sense = 1;
+   M.offset = 0;
+   M.family = "boxed";
+   return M;
+}
+static void behaviourCase(long long k, Rng& g)
+{
+   Sink& S = sink();
+   S.count("behaviour.cases");
+   int which = (int)((k / 8) % 5);
+   std::string how;
+   if(which == 0)
+   {
+      // ITERLIMIT = j really limits the number of iterations
+      Instance I = genFamily(g, "planted-opt", 8, 8);
+      if(!allExactDoubles(I.M)) { S.count("behaviour.skipped"); return; }
+      SoPlex a;
+      silence(a);
+      a.setIntParam(SoPlex::SIMPLIFIER, SoPlex::SIMPLIFIER_OFF);
+      loadReal(a, I.M, 0);
+      a.optimize();
+      int N = a.numIterations();
+      if(a.status() != SPX::OPTIMAL || N < 2) { S.count("behaviour.iterlimit_trivial"); return; }
+      int j = g.range(0, N - 1);
+      SoPlex b;
+      silence(b);
+      b.setIntParam(SoPlex::SIMPLIFIER, SoPlex::SIMPLIFIER_OFF);
+      bool ok = setVia(b, g, intLine(SoPlex::ITERLIMIT, "valid", j, g.range(0, NLAYOUT - 1), true), how);
+      loadReal(b, I.M, 0);
+      b.optimize();
+      S.count("behaviour.iterlimit_checked");
+      S.seen("nontrivial", fnv("iterlimit" + how) ^ I.M.signature());
+      if(!ok || b.intParam(SoPlex::ITERLIMIT) != j) sink().viol("C15:behaviour:iterlimit:valid:not-set", "iterlimit = " + std::to_string(j) + " via " + how + " was not accepted");
+      else if(b.numIterations() > j)
+         sink().viol("C15:behaviour:iterlimit:valid:not-used", "iterlimit = " + std::to_string(j) + " (set via " + how + ") but the solve performed " + std::to_string(b.numIterations()) +
+                     " iterations (unlimited solve: " + std::to_string(N) + "), status " + statusName((int)b.status()), Json().str("lp_text", I.M.toLPText()).num("iterlimit", j).done());
+      else if(b.status() == SPX::OPTIMAL && b.numIterations() < N) S.count("behaviour.iterlimit_optimal_earlier");
+      else if(b.status() == SPX::ABORT_ITER) S.count("behaviour.iterlimit_abort_iter");
+   }
+   else if(which == 1)
+   {
+      // OBJSENSE flips the optimum
+      LPModel M = boxedLP(g);
+      LPModel Mn = M;
+      Mn.sense = -1;
+      Truth tx = computeTruth(M, true), tn = computeTruth(Mn, true);
+      if(!(tx.known && tn.known && tx.status == REF_OPTIMAL && tn.status == REF_OPTIMAL && tx.robust && tn.robust)) { S.count("behaviour.skipped"); return; }
+      double val[2];
+      for(int sgn = 0; sgn < 2; sgn++)
+      {
+         int sense = sgn == 0 ? 1 : -1;
+         SoPlex s;
+         silence(s);
+         loadReal(s, M, g.range(0, 2));                                  // loads as "maximize"
+         bool ok = setVia(s, g, intLine(SoPlex::OBJSENSE, "valid", sense, g.range(0, NLAYOUT - 1), true), how);
+         s.optimize();
+         double truth = dq(sense > 0 ? tx.objval : tn.objval);
+         val[sgn] = s.objValueReal();
+         S.count("behaviour.objsense_checked");
+         S.seen("nontrivial", fnv("objsense" + how + std::to_string(sense)) ^ M.signature());
+         if(!ok || s.status() != SPX::OPTIMAL || std::fabs(val[sgn] - truth) > 1e-6 * (1 + std::fabs(truth)))
+            sink().viol("C15:behaviour:objsense:valid:not-used", "objsense = " + std::to_string(sense) + " (set via " + how + "): status " + statusName((int)s.status()) + ", objective " + ds(val[sgn]) +
+                        ", certified optimum for this sense " + ds(truth), Json().str("lp_text", M.toLPText()).done());
+      }
+      if(dq(tx.objval) > dq(tn.objval) + 1e-3) S.count("behaviour.objsense_distinct_optima");
+   }
+   else if(which == 2)
+   {
+      // VERBOSITY 0 prints nothing; VERBOSITY >= 3 prints the solve log
+      Instance I = genFamily(g, "planted-opt", 6, 6);
+      if(!allExactDoubles(I.M)) { S.count("behaviour.skipped"); return; }
+      for(int level : {0, 3 + g.range(0, 2)})
+      {
+         SoPlex s;
+         CountingBuf buf;
+         std::ostream os(&buf);
+         for(int v = 0; v <= 5; v++) s.spxout.setStream((SPxOut::Verbosity)v, os);
+         bool ok = setVia(s, g, intLine(SoPlex::VERBOSITY, "valid", level, g.range(0, NLAYOUT - 1), true), how);
+         // messages of the front end itself (e.g. "Loading settings file") were printed at the OLD verbosity: discard
+         buf.lines = 0;
+         buf.cur.clear();
+         buf.all.clear();
+         loadReal(s, I.M, 0);
+         s.optimize();
+         long out = buf.lines + (long)buf.cur.size();
+         S.count("behaviour.verbosity_checked");
+         S.seen("nontrivial", fnv("verbosity" + how + std::to_string(level)) ^ I.M.signature());
+         if(!ok) sink().viol("C15:behaviour:verbosity:valid:not-set", "verbosity = " + std::to_string(level) + " via " + how + " was not accepted");
+         else if(level == 0 && out != 0) sink().viol("C15:behaviour:verbosity:valid:not-used", "verbosity = 0 (set via " + how + ") but the solve printed: " + buf.all.substr(0, 200) + buf.cur);
+         else if(level >= 3 && out == 0) sink().viol("C15:behaviour:verbosity:valid:not-used", "verbosity = " + std::to_string(level) + " (set via " + how + ") but the solve printed nothing");
+      }
+   }
+   else if(which == 3)
+   {
+      // a changed FEASTOL / OPTTOL is visible in tolerances(), before and after a solve
+      Instance I = genFamily(g, "planted-opt", 6, 6);
+      if(!allExactDoubles(I.M)) { S.count("behaviour.skipped"); return; }
+      bool feas = g.chance(0.5);
+      double v = std::pow(10.0, -(double)g.range(3, 9));
+      SoPlex s;
+      silence(s);
+      bool ok = setVia(s, g, realLine(feas ? SoPlex::FEASTOL : SoPlex::OPTTOL, "valid", v, g.range(0, NLAYOUT - 1), true, 0), how);
+      double before = feas ? s.tolerances()->feastol() : s.tolerances()->opttol();
+      loadReal(s, I.M, 0);
+      s.optimize();
+      double after = feas ? s.tolerances()->feastol() : s.tolerances()->opttol();
+      S.count("behaviour.tolerance_checked");
+      S.seen("nontrivial", fnv("tol" + how + ds(v)) ^ I.M.signature());
+      if(!ok || before != v || after != v)
+         sink().viol(std::string("C15:behaviour:") + (feas ? "feastol" : "opttol") + ":valid:not-used", std::string(feas ? "feastol" : "opttol") + " = " + ds(v) + " (set via " + how + "): tolerances() shows " + ds(before) +
+                     " before and " + ds(after) + " after a solve");
+   }
+   else
+   {
+      // OBJ_OFFSET shifts the objective value
+      LPModel M = boxedLP(g);
+      double d = (double)g.range(-50, 50);
+      double obj[2];
+      bool okAll = true;
+      for(int w = 0; w < 2; w++)
+      {
+         SoPlex s;
+         silence(s);
+         loadReal(s, M, 0);
+         if(w == 1) okAll = setVia(s, g, realLine(SoPlex::OBJ_OFFSET, "valid", d, g.range(0, NLAYOUT - 1), true, 0), how);
+         s.optimize();
+         if(s.status() != SPX::OPTIMAL) { S.count("behaviour.skipped"); return; }
+         obj[w] = s.objValueReal();
+      }
+      S.count("behaviour.offset_checked");
+      S.seen("nontrivial", fnv("offset" + how + ds(d)) ^ M.signature());
+      if(!okAll || std::fabs(obj[1] - obj[0] - d) > 1e-7 * (1 + std::fabs(obj[0]) + std::fabs(d)))
+         sink().viol("C15:behaviour:obj_offset:valid:not-used", "obj_offset = " + ds(d) + " (set via " + how + ") but the optimal value moved from " + ds(obj[0]) + " to " + ds(obj[1]), Json().str("lp_text", M.toLPText()).done());
+   }
+}
+
+static void runCase(long long k, Rng& g)
+{
+   Sink& S = sink();
+   int E = numEnumCases();
+   std::string desc;
+   int kind;      // 0 enumeration, 1 history, 2 bulk-heavy history, 3 behaviour
+   if(k < E)
+   {
+      kind = 0;
+      int front = (int)(k % 3), w = (int)(k / 3);
+      std::string pn = w < T.nb ? "bool:" + T.bn[w] : w < T.nb + T.ni ? "int:" + T.in[w - T.nb] : w < T.nb + T.ni + T.nr ? "real:" + T.rn[w - T.nb - T.ni] : "uint:random_seed";
+      desc = std::string("enumerate ") + (front == 0 ? "typed" : front == 1 ? "parseSettingsString" : "loadSettingsFile") + " x " + pn;
+   }
+   else
+   {
+      long long r = (k - E) % 8;
+      kind = r == 6 ? 3 : r == 7 ? 2 : 1;
+      desc = kind == 3 ? "behaviour" : kind == 2 ? "history (bulk operations)" : "history";
+   }
+   S.begin(k, desc);
+   S.count("cases");
+   checkTablesAgainstDocs();
+   if(kind == 3)
+   {
+      try
+      {
+         behaviourCase(k - E, g);
+      }
+      catch(const std::exception& x)
+      {
+         S.viol("C15:exception:behaviour:-:" + excName(x), "exception escaped during a behaviour probe");
+      }
+      S.end(k);
+      return;
+   }
+   Ctx c(g, k);
+   {
+      // a freshly constructed object shows the documented defaults
+      std::vector<Mis> d = c.diffAll();
+      for(auto& x : d) S.viol("C15:construct:" + x.param + ":-:" + (x.kind == "value" ? "not-default" : x.kind), "freshly constructed object: " + x.detail);
+      if(!d.empty())
+      {
+         S.end(k);
+         return;
+      }
+   }
+   if(kind == 0) enumCase(c, k);
+   else historyCase(c, kind == 2);
+   if(c.dead) S.count("cases.abandoned_after_failed_heal");
+   if(c.nops > 0) S.seen("nontrivial", c.shape);
+   S.maxi("history.max_ops", (double)c.nops);
+   if(k < 3 || k == E) S.sample(Json().str("case", desc).num("operations", c.nops).num("rebuilds_after_violation", c.nviolOps).str("last_op", c.hist.empty() ? "" : c.hist.back()).done());
+   S.end(k);
+}
 
 int main(int argc, char** argv)
 {
@@ -29,7 +1867,6 @@ int main(int argc, char** argv)
    if(cli.extra.count("probe")) probeAll = cli.extra["probe"] != "risky";
    Sink& S = sink();
    S.prop = cli.prop;
-   S.maxSamples = 4;
    if(cli.prop != "C15")
    {
       fprintf(stderr, "h_param: unknown property %s\n", cli.prop.c_str());
